@@ -60,7 +60,7 @@ func sliceRange(s []eval.Value) (lo, hi uintptr) {
 
 func c12(r *rep.Run) {
 	max := 6
-	r.SetBudget(120e9)
+	r.SetBudget(300e9)
 	if r.Thorough() {
 		max = 7
 		r.SetBudget(1800e9)
